@@ -74,11 +74,15 @@ def make_r(mnemonic, opcode, funct, shamt=0, shift=False):
     return type(mnemonic.title(), (MipsInstruction,), members)
 
 
-def make_i(mnemonic, opcode):
-    """Factory function to create an I-format instruction"""
+def make_i(mnemonic, opcode, signed=None):
+    """Factory function to create an I-format instruction
+
+    signed tells whether the instruction sign extends (True) or zero
+    extends (False) its immediate.
+    """
     rs = Operand("rs", MipsRegister, read=True)
     rt = Operand("rt", MipsRegister, write=True)
-    imm = Operand("imm", int)
+    imm = Operand("imm", int, signed=signed)
     syntax = Syntax([mnemonic, " ", rt, ",", " ", rs, ",", " ", imm])
     patterns = {"opcode": opcode, "rs": rs, "rt": rt, "imm": imm}
     members = {
@@ -96,7 +100,7 @@ def make_mem(mnemonic, opcode, is_load=False):
     """Factory function to create an load or store instruction"""
     rs = Operand("rs", MipsRegister, read=True)
     rt = Operand("rt", MipsRegister, read=not is_load, write=is_load)
-    imm = Operand("imm", int)
+    imm = Operand("imm", int, signed=True)
     syntax = Syntax([mnemonic, " ", rt, ",", " ", imm, "(", rs, ")"])
     patterns = {"opcode": opcode, "rs": rs, "rt": rt, "imm": imm}
     members = {
@@ -158,8 +162,8 @@ Sltu = make_r("sltu", 0, 43)
 
 Addi = make_i("addi", 8)
 Addiu = make_i("addiu", 9)
-Slti = make_i("slti", 10)
-Sltiu = make_i("sltiu", 11)
+Slti = make_i("slti", 10, signed=True)
+Sltiu = make_i("sltiu", 11, signed=True)
 Andi = make_i("andi", 12)
 Ori = make_i("ori", 13)
 Xori = make_i("xori", 14)
